@@ -30,7 +30,9 @@ def dispatch (ws : List String) : Verdict :=
   | "C20" :: rest => C20.handle rest
   | "C19" :: rest => C19.handle rest
   | "C18" :: rest => C18.handle rest
+  | "C11" :: "conc" :: rest => C14.handle ("conc" :: rest)
   | "C11" :: rest => C11.handle rest
+  | "C10" :: "conc" :: rest => C14.handle ("conc" :: rest)     -- the concurrent phase shared with C14
   | "C10" :: rest => C10.handle rest
   | "C13" :: rest => C13.handle rest
   | "C12" :: rest => C12.handle rest
